@@ -1,28 +1,96 @@
-CLAIM = "wip"
-ASSUMPTIONS = []
+CLAIM = ("Real src/list.c (every column handler, heading, separator and footer of the l / lv / v / vv column sets, list_file_basic / "
+         "list_file_verbose), real src/extract.c (print_filename*, print_symlink_line, progress_callback, test_archived_file_crc, "
+         "extract_archived_file with overwrite prompt / Skipped / parent-directory messages, extract_archive_dry_run, print_archive "
+         "banners) and real src/safe.c, executed on a member whose path, filename, symlink_target, compress_method[0..4], unix_username "
+         "and unix_group are ARBITRARY bytes (strings of length 0..3 over 0x01..0xFF, any of path/filename/target absent). libc's output "
+         "functions are replaced by a model that interprets the concrete format string of every real call site and asserts that every "
+         "byte written - format literal, %s / %c argument byte, padding, hex digit - is in {0x20..0x7E, LF, CR, TAB}; lha_arch_vasprintf "
+         "is modelled by the same interpreter so that the real safe_output() rewrites the real formatted string. safe.output additionally "
+         "proves, for ALL strings of up to 6 bytes, that safe_output/safe_printf/safe_fprintf preserve the length, leave printable bytes "
+         "unchanged and write '?' for every other byte.")
+ASSUMPTIONS = [
+    "header strings up to the stated length (3 bytes; 2 for the extract directory given on the command line; 5-6 for bare path strings)",
+    "decimal / floating-point conversions (%d %i %u %lu %5.1f) are not rendered: their digits, sign, point and padding are printable by construction (libc trusted)",
+    "member data written with fwrite by 'lha p' is outside the property (counted, not checked)",
+    "localtime() returns an arbitrary valid broken-down time, time()/fstat() arbitrary values; arch layer, reader verdicts, progress callbacks and stdin are arbitrary",
+    "the overwrite prompt is answered within 3 lines of at most 2 characters",
+]
 LIST_UNITS = ["src/list.c", "src/safe.c"]
-OM = {"out_vformat.4": 90, "out_vformat.0": 3, "out_vformat.1": 4, "out_vformat.2": 4, "out_vformat.3": 3, "out_strlen.0": 41, "out_pad.0": 12, "out_str.0": 58, "out_str.1": 41, "out_hex.0": 9, "out_hex.1": 9, "out_hex.2": 9, "lha_arch_vasprintf.0": 65}
-def U(**kw):
-    d = dict(OM); d.update(kw); return d
-LISTL = {"sym_header_fill.0": 4, "sym_header_fill.1": 6, "unix_permissions_print.0": 10, "os9_permissions_print.0": 8, "safe_output.0": 12,
+EXT_UNITS = ["src/extract.c", "src/safe.c"]
+OM = {"out_vformat.4": 90, "out_vformat.0": 8, "out_vformat.1": 8, "out_vformat.2": 8, "out_vformat.3": 8, "out_strlen.0": 57, "out_pad.0": 24,
+      "out_str.0": 58, "out_str.1": 57, "out_hex.0": 17, "out_hex.1": 24, "out_hex.2": 17, "lha_arch_vasprintf.0": 65}
+LISTL = {"sym_header_fill.0": 4, "sym_header_fill.1": 6, "unix_permissions_print.0": 10, "os9_permissions_print.0": 8, "safe_output.0": 20,
          "last_column.0": 11, "print_list_headings.0": 22, "print_list_headings.1": 11, "print_list_separators.0": 22, "print_list_separators.1": 11,
-         "print_columns.0": 11, "print_footers.0": 11, "print_footers.1": 11, "print_footers.2": 12, "print_footers.3": 11, "list_file_contents.0": 3, "harness.0": 6}
-EXTL = {"sym_header_fill.0": 4, "sym_header_fill.1": 6, "safe_output.0": 58, "out_strlen.0": 57, "out_str.0": 57, "harness.0": 3, "harness.1": 7, "verif_malloc.0": 4, "verif_free.0": 4, "verif_strdup.0": 24,
-        "strlen.0": 12, "strcat.0": 12, "strcat.1": 12, "strchr.0": 12, "file_full_path.0": 5, "file_full_path.1": 5,
+         "print_columns.0": 11, "print_footers.0": 11, "print_footers.1": 11, "print_footers.2": 12, "print_footers.3": 11, "list_file_contents.0": 4, "harness.0": 7}
+EXTL = {"sym_header_fill.0": 4, "sym_header_fill.1": 6, "safe_output.0": 58, "harness.0": 3, "harness.1": 7, "verif_malloc.0": 4, "verif_free.0": 4,
+        "verif_strdup.0": 24, "strlen.0": 12, "strcat.0": 12, "strcat.1": 12, "strchr.0": 12, "file_full_path.0": 5, "file_full_path.1": 5,
         "progress_callback.0": 60, "make_parent_directories.0": 12, "make_parent_directories.1": 12, "make_parent_directories.2": 8,
-        "prompt_user.0": 3, "confirm_file_overwrite.0": 4, "test_file_crc.0": 3, "extract_archive_dry_run.0": 3, "extract_archive.0": 3, "print_archive.0": 3, "print_archived_file.0": 2}
+        "prompt_user.0": 3, "confirm_file_overwrite.0": 4, "test_file_crc.0": 3, "extract_archive_dry_run.0": 3, "extract_archive.0": 3,
+        "print_archive.0": 3, "print_archived_file.0": 2}
+def U(base, **kw):
+    d = dict(OM); d.update(base); d.update(kw); return d
+
+S_OUT = "printf/fprintf/vprintf/putchar/putc/fputc/puts/fputs/fflush/fwrite: output model (harness/common/out_model.h), every byte checked"
+S_VAS = "lha_arch_vasprintf: the same format interpreter rendering into a static 64-byte buffer (%s %c %x); free() of it is tracked"
+S_TIME = "localtime: arbitrary valid struct tm; time, fstat: arbitrary"
+S_NEXT = "lha_filter_next_file: serves the harness' member(s) in order (src/filter.c is examined by C19 filter.sel)"
+S_EXT = ["lha_arch_exists / lha_arch_mkdir: arbitrary result per call", "lha_reader_check / lha_reader_extract: arbitrary verdict, progress callback invoked 0, 1 or 2 times (block 0, block 1) with <= 3 blocks",
+         "lha_reader_current_is_fake: arbitrary; lha_reader_read: end of data", "malloc / strdup / free: pool of three 24-byte strings (sizes checked)",
+         "getchar: arbitrary characters, lines <= 2 characters, 'n' forced in the third line", "tolower: ASCII model"]
+
 HARNESSES = [
-    dict(name="safe.output", src="C18/safe.c", defines=["N=6"], unwindset=U(**{"safe_output.0": 12, "harness.0": 7, "harness.1": 7}), units=["src/safe.c"], timeout=120),
-    dict(name="list.cols", src="C18/cols.c", defines=["WHICH=1", "SL=3"], unwindset=U(**{"sym_header_fill.0": 4, "sym_header_fill.1": 6, "unix_permissions_print.0": 10, "os9_permissions_print.0": 8, "safe_output.0": 12}), units=LIST_UNITS, timeout=120),
-    dict(name="list.name", src="C18/cols.c", defines=["WHICH=2", "SL=3"], unwindset=U(**{"sym_header_fill.0": 4, "sym_header_fill.1": 6, "safe_output.0": 12}), units=LIST_UNITS, timeout=120),
-    dict(name="list.method", src="C18/cols.c", defines=["WHICH=3", "SL=3"], unwindset=U(**{"sym_header_fill.0": 4, "sym_header_fill.1": 6, "safe_output.0": 12}), units=LIST_UNITS, timeout=120),
+    dict(name="safe.output", src="C18/safe.c", defines=["N=6"], unwindset=U({"safe_output.0": 12, "harness.0": 7, "harness.1": 7}), units=["src/safe.c"], timeout=120,
+         bounds="ALL strings of 0..6 bytes over 0x01..0xFF; safe_output, safe_printf(\"%s\"), safe_fprintf(stderr, \"%s\"), safe_printf(\" -> %s\")",
+         stubs=[S_OUT + " and recorded", S_VAS],
+         claim="length preserved; printable bytes unchanged; every byte < 0x20 or >= 0x7F written as '?'; return value = formatted length; buffer released"),
+    dict(name="list.cols", src="C18/cols.c", defines=["WHICH=1", "SL=3"], unwindset=U(LISTL), units=LIST_UNITS, timeout=120,
+         bounds="one header: strings <= 3 arbitrary bytes, 5 arbitrary method bytes, all flags/perms/ids/sizes/stamp/level/OS type arbitrary; arbitrary totals",
+         stubs=[S_OUT, S_VAS, S_TIME],
+         claim="permission (Unix, OS-9, OS name), uid/gid, packed, size, ratio, timestamp, full timestamp, header level handlers and all seven column footers write printable ASCII only"),
+    dict(name="list.name", src="C18/cols.c", defines=["WHICH=2", "SL=3"], unwindset=U(LISTL), units=LIST_UNITS, timeout=180,
+         bounds="path, filename, link target: each absent or any string of <= 3 bytes over 0x01..0xFF",
+         stubs=[S_OUT, S_VAS], claim="name_column_print and whole_line_name_column_print write printable ASCII only"),
+    dict(name="list.method", src="C18/cols.c", defines=["WHICH=3", "SL=3", "SYM_METHOD_ANY=1"], unwindset=U(LISTL), units=LIST_UNITS, timeout=120,
+         bounds="compress_method[0..4] arbitrary bytes 0x00..0xFF (copied verbatim from the archive by lib/lha_file_header.c), CRC arbitrary",
+         stubs=[S_OUT, S_VAS],
+         claim="method_crc_column_print writes printable ASCII only (failed on the tree before /repo commit afe2020: the method bytes went through plain printf)"),
+    dict(name="list.heads", src="C18/cols.c", defines=["WHICH=4", "SL=1"], unwindset=U(LISTL, **{"harness.0": 5}), units=LIST_UNITS, timeout=180, object_bits=14,
+         bounds="all four column sets: headings, separators, footers for arbitrary totals", stubs=[S_OUT, S_VAS, S_TIME],
+         claim="print_list_headings, print_list_separators, print_footers write printable ASCII only"),
 ] + [
-    dict(name="list."+n, src="C18/rows.c", defines=["CMD=%d" % c, "SL=3"] + (["METHOD_PRINTABLE=1"] if c >= 2 else []),
-         unwindset=U(**LISTL), units=LIST_UNITS, timeout=300, mem_gb=4)
+    dict(name="list." + n, src="C18/rows.c", defines=["CMD=%d" % c, "SL=3"], unwindset=U(LISTL), units=LIST_UNITS, timeout=300, mem_gb=4,
+         bounds="command lha %s, quiet 0..2, ONE member: strings <= 3 arbitrary bytes (each of path/filename/target present or absent), 5 arbitrary non-NUL method bytes, "
+                "every other header field arbitrary; archive mtime arbitrary or fstat failing" % n,
+         stubs=[S_OUT, S_VAS, S_TIME, S_NEXT],
+         claim="the complete output of the command (headings, separators, row, footer) is printable ASCII plus the tool's own newlines")
     for c, n in enumerate(["l", "lv", "v", "vv"])
 ] + [
-    dict(name="ext."+n, src="C18/ext.c", defines=["WHICH=%d" % w, "SL=3", "XL=2", "OUT_MAXSTR=56"] + (["STUB_PARENTS=1"] if w == 4 else []),
+    dict(name="list.%s.second" % n, src="C18/rows.c", defines=["CMD=%d" % c, "SL=2", "NHDR=2", "SYM_INDEX=1"], unwindset=U(LISTL), units=LIST_UNITS, timeout=300, mem_gb=4,
+         bounds="command lha %s, quiet 0..2, TWO members: a benign first member and a later member with strings <= 2 arbitrary bytes, 5 arbitrary method bytes, other fields arbitrary" % n,
+         stubs=[S_OUT, S_VAS, S_TIME, S_NEXT],
+         claim="fields of a later member are sanitised like those of the first")
+    for c, n in [(0, "l"), (3, "vv")]
+] + [
+    dict(name="ext." + n, src="C18/ext.c", defines=["WHICH=%d" % w, "SL=3", "XL=2", "PL=5", "OUT_MAXSTR=56"] + (["STUB_PARENTS=1"] if w == 4 else []),
          rename_defs=({"src/extract.c": ["make_parent_directories"]} if w == 4 else {}),
-         unwindset=U(**EXTL), units=["src/extract.c", "src/safe.c"], timeout=300, mem_gb=4)
-    for w, n in [(1, "msg"), (2, "dryrun"), (3, "test"), (4, "extract"), (5, "print"), (6, "parents")]
+         unwindset=U(EXTL), units=EXT_UNITS, timeout=300, mem_gb=4, bounds=b,
+         stubs=[S_OUT, S_VAS, S_NEXT] + S_EXT + (["make_parent_directories: arbitrary result, no output (its messages: ext.parents)"] if w == 4 else []), claim=cl)
+    for w, n, b, cl in [
+        (1, "msg", "file name / link target / directory path: any string <= 3 bytes; progress callback for any block <= num_blocks <= 200, quiet 0..2",
+         "print_filename, print_filename_brief, print_symlink_line, check_parent_directory (all three messages), progress_callback write printable ASCII + CR/TAB/LF only"),
+        (2, "dryrun", "lha xn / en / pn on one member: strings <= 3 arbitrary bytes, extract directory absent or <= 2 arbitrary bytes, use_path 0/1, file exists or not",
+         "EXTRACT lines (|target (directory), (directory), but file is exist.) are printable ASCII"),
+        (3, "test", "lha t / tn, quiet 0..2, one member as above, arbitrary verdict and progress",
+         "VERIFY line, 'Testing  :' progress lines, Tested / CRC error lines are printable ASCII"),
+        (4, "extract", "lha x / e, quiet 0..2, overwrite policy prompt/skip/all, one member as above (file, directory or symlink), arbitrary arch/reader results",
+         "overwrite prompt, 'Skipped...', 'Melting  :' progress, Melted / Failure, 'Symbolic Link a -> b', 'Failed to read file type' are printable ASCII"),
+        (5, "print", "lha p, quiet 0..2, one member as above", "'::::::::' banners with the path and the Symbolic Link line are printable ASCII"),
+        (6, "parents", "make_parent_directories on ANY path string of <= 5 bytes over 0x01..0xFF containing a character other than '/'",
+         "'Failed to create parent directory', 'Parent path .. is not a directory!', 'Failed to stat' messages are printable ASCII"),
+    ]
+] + [
+    dict(name="list.name.s5", src="C18/cols.c", defines=["WHICH=2", "SL=5"], unwindset=U(LISTL, **{"sym_header_fill.0": 6}), units=LIST_UNITS, timeout=1200, tier="thorough", mem_gb=5,
+         bounds="as list.name with strings <= 5 bytes", stubs=[S_OUT, S_VAS], claim="as list.name"),
+    dict(name="ext.parents.p6", src="C18/ext.c", defines=["WHICH=6", "SL=1", "XL=1", "PL=6", "OUT_MAXSTR=56"], unwindset=U(EXTL), units=EXT_UNITS, timeout=1200, tier="thorough", mem_gb=5,
+         bounds="as ext.parents with paths <= 6 bytes", stubs=[S_OUT, S_VAS] + S_EXT, claim="as ext.parents"),
 ]
